@@ -305,33 +305,54 @@ def shipped_jobs():
     return jobs
 
 
-# ---------------------------------------------------------------- tie of the proved fragment model (XCodegenExpr.cg) to the real xcmp
-def frag_expr(rng, depth):
-    """an expression of the proved fragment: numbers, globals g0/g1, + and - nested on both sides (right operands
-    that are constants or variables go straight to breg; others are spilled to frame temporaries)"""
+# ---------------------------------------------------------------- tie of the proved fragment model (XCodegen*.v) to the real xcmp
+FRAG_VARS = ['g0', 'g1', 'l0', 'l1', 'p0', 'p1']
+
+
+def frag_expr(rng, depth, want='int'):
+    """an expression of the proved fragment: literals, globals g0/g1, locals l0/l1, value formals p0/p1, + and -
+    nested on both sides, the six relational operators, ~, unary minus, and/or (the real compiler's constant
+    propagation and rewrites are applied to the model's input by XConstProp.front)"""
     def const():
-        v = rng.choice([0, 1, 2, 3, 7, 15, 16, 255, 256, 4095, 4096, 65535, 65534, 1000])
+        v = rng.choice([0, 0, 1, 2, 3, 7, 15, 16, 255, 256, 4095, 4096, 65535, 65534, 1000, 65536, 70000])
         return ('num', v) if rng.random() < 0.8 else ('num', (-v) % (1 << 32))
-    def ctree(d):
-        if d <= 0 or rng.random() < 0.5:
-            return const()
-        return ('bin', rng.choice(['+', '-']), ctree(d - 1), ctree(d - 1))
     r = rng.random()
+    if want == 'bool':
+        if depth <= 0 or r < 0.15:
+            return rng.choice([('true',), ('false',), ('bin', '<', ('var', rng.choice(FRAG_VARS)), const())])
+        if r < 0.6:
+            op = rng.choice(['=', '~=', '<', '<=', '>', '>='])
+            l, rr = frag_expr(rng, depth - 1), frag_expr(rng, depth - 1 if rng.random() < 0.4 else 0)
+            if rng.random() < 0.25:
+                rr = ('num', 0)
+            if rng.random() < 0.1:
+                l = ('num', 0)
+            return ('bin', op, l, rr)
+        if r < 0.85:
+            return ('bin', rng.choice(['and', 'or']), frag_expr(rng, depth - 1, 'bool'), frag_expr(rng, depth - 1, 'bool'))
+        return ('not', frag_expr(rng, depth - 1, 'bool'))
     if depth <= 0 or r < 0.15:
         r = rng.random()
-        if r < 0.45:
-            return ('var', rng.choice(['g0', 'g1']))
-        if r < 0.8:
-            return const()
-        return ctree(2)
-    return ('bin', rng.choice(['+', '-']), frag_expr(rng, depth - 1), frag_expr(rng, depth - 1 if rng.random() < 0.45 else 0))
+        if r < 0.55:
+            return ('var', rng.choice(FRAG_VARS))
+        return const()
+    if r < 0.75:
+        return ('bin', rng.choice(['+', '-']), frag_expr(rng, depth - 1), frag_expr(rng, depth - 1 if rng.random() < 0.45 else 0))
+    if r < 0.85:
+        return ('neg', frag_expr(rng, depth - 1))
+    return frag_expr(rng, depth - 1, 'bool')
 
 
 def listing_instrs(text):
-    """(mnemonic, operand) of the instruction lines of an `xcmp -S` listing"""
+    """(mnemonic, operand) of the lines of an `xcmp -S` listing; labels are ('LABEL', name); branches and LDAP keep
+    the label name, other label operands their value"""
     import re
     out = []
     for line in text.split('\n'):
+        m = re.match(r'^(?:0x)?[0-9a-fA-F]+\s+(_lab\d+|_exit|_start)\s+\(0 bytes\)', line)
+        if m:
+            out.append(('LABEL', m.group(1)))
+            continue
         m = re.match(r'^(?:0x)?[0-9a-fA-F]+\s+([A-Z]+)\s+(\S+)(?:\s+\((-?\d+)\))?\s+\(\d+ bytes\)', line)
         if not m:
             out.append(('', line.strip()))
@@ -339,70 +360,124 @@ def listing_instrs(text):
         mn, op, val = m.group(1), m.group(2), m.group(3)
         if mn == 'OPR':
             out.append((op, None))
+        elif mn in ('BR', 'BRZ', 'BRN', 'LDAP'):
+            out.append((mn, op))
         else:
             out.append((mn, int(val) if val is not None else int(op) if re.match(r'^-?\d+$', op) else op))
     return out
 
 
+def canon_labels(code):
+    """rename labels in order of first appearance"""
+    names = {}
+    out = []
+    for mn, op in code:
+        if mn in ('LABEL', 'BR', 'BRZ', 'BRN', 'LDAP'):
+            if op not in names:
+                names[op] = 'L%d' % len(names)
+            out.append((mn, names[op]))
+        else:
+            out.append((mn, op))
+    return out
+
+
+def model_code(text):
+    out = []
+    for tok in text.split('; '):
+        w = tok.split()
+        if len(w) == 1 and w[0].endswith(':'):
+            out.append(('LABEL', w[0][:-1]))
+        elif len(w) == 1:
+            out.append((w[0], None))
+        elif w[0] in ('BR', 'BRZ', 'BRN', 'LDAP'):
+            out.append((w[0], w[1]))
+        else:
+            out.append((w[0], int(w[1])))
+    return out
+
+
 def fragment_tie(ck, tools, scr, n):
-    """the extracted model cg against the instructions the real xcmp emits for the same expression"""
+    """the extracted model (XConstProp.front, then XCodegenExpr.cg with the frame symbols of the function) against
+    the instructions the real xcmp emits for the same `return e` inside a function with locals and formals"""
     rng = ck.rng
-    exprs = [frag_expr(rng, rng.randint(0, 6)) for _ in range(n)]
     d = tempfile.mkdtemp(dir=scr)
     agree = outside = 0
-    lines = []
-    real = []
-    for i, e in enumerate(exprs):
-        src = b'var g0;\nvar g1;\nproc main() is { g0 := 1; g1 := 2; 0(' + xcommon.x_expr(e, True, 0) + b') }\n'
-        open(os.path.join(d, 'f.x'), 'wb').write(src)
-        rc, out, err = xcommon._run([tools.xcmp, 'f.x', '-S'], d, timeout=60)
-        ins = listing_instrs(out.decode('latin-1')) if rc == 0 else None
-        code = None
-        amap = None
-        if ins is not None:
-            try:
-                k = next(j for j, x in enumerate(ins) if x == ('PROC', 'main'))
-            except StopIteration:
-                k = None
-            if k is not None:
-                st = [j for j in range(k, len(ins)) if ins[j][0] == 'STAM' and ins[j][1] != 1]
-                svc = [j for j in range(k, len(ins)) if ins[j][0] == 'SVC']
-                if len(st) >= 2 and svc and ins[svc[0] - 3:svc[0]] == [('LDBM', 1), ('STAI', 2), ('LDAC', 0)]:
-                    amap = {'g0': ins[st[0]][1], 'g1': ins[st[1]][1], 'size': 0}
-                    if ins[k + 1:k + 3] == [('LDBM', 1), ('STAI', 0)] and ins[k + 3][0] == 'LDAC' and ins[k + 4] == ('ADD', None):
-                        amap['size'] = -ins[k + 3][1]          # prologue: LDAC -size; OPR ADD; STAM 1
-                    code = [x for x in ins[st[1] + 1:svc[0] - 3] if x[0] != '']
-        real.append((src, code, amap))
-        if amap is None:
-            lines.append('size=0 g0=2 g1=3 | ' + xcommon.sx_expr(e))
-        else:
-            lines.append('size=%d g0=%d g1=%d | %s' % (amap['size'], amap['g0'], amap['g1'], xcommon.sx_expr(e)))
-    rc, out, err = xcommon._run([tools.hv, 'xcg'], d, ('\n'.join(lines) + '\n').encode(), 300)
-    model = out.decode().strip().split('\n')
-    if rc != 0 or len(model) != len(exprs):
-        ck.broken.append('extracted cg failed rc=%d %s' % (rc, err[-200:]))
-        return
     sample = None
-    for (src, code, amap), mo in zip(real, model):
+    for i in range(n):
+        e = frag_expr(rng, rng.randint(0, 5), rng.choice(['int', 'int', 'bool']))
+        prog = {'globals': [('var', 'g0'), ('var', 'g1')],
+                'procs': [{'kind': 'func', 'name': 'f', 'formals': [('val', 'p0'), ('val', 'p1')], 'locals': [('var', 'l0'), ('var', 'l1')],
+                           'body': ('seq', [('assign', 'l0', ('num', 3)), ('assign', 'l1', ('num', 4)), ('assign', 'g1', ('num', 9)), ('return', e)])},
+                          {'kind': 'proc', 'name': 'main', 'formals': [], 'locals': [],
+                           'body': ('seq', [('assign', 'g0', ('num', 1)), ('assign', 'g1', ('num', 2)), ('sys', 0, [('call', 'f', [('num', 5), ('num', 6)])])])}]}
+        src = xcommon.to_x(prog)
+        open(os.path.join(d, 'f.x'), 'wb').write(src)
+        open(os.path.join(d, 'f.sx'), 'w').write(xcommon.to_sx(prog))
+        rc, out, err = xcommon._run([tools.xcmp, 'f.x', '-S'], d, timeout=60)
+        if rc != 0:
+            ck.broken.append('fragment tie: xcmp -S failed on %r' % src.decode('latin-1'))
+            break
+        text = out.decode('latin-1')
+        ins = listing_instrs(text)
+        code = size = None
+        try:
+            k = ins.index(('FUNC', 'f'))
+            if ins[k + 1:k + 3] == [('LDBM', 1), ('STAI', 0)] and ins[k + 3][0] == 'LDAC' and ins[k + 4] == ('ADD', None):
+                size = -ins[k + 3][1]
+            # the marker statement g1 := 9 (a store to a global: no peephole reaches across it)
+            j = next(q for q in range(k, len(ins) - 1) if ins[q] == ('LDAC', 9) and ins[q + 1][0] == 'STAM') - 1
+            end = next(q for q in range(j + 3, len(ins)) if ins[q][0] in ('PROC', 'FUNC') or ins[q][1] == 'PADDING' or str(ins[q][1]).startswith('PADDING'))
+            body = ins[j + 3:end]
+            # the epilogue starts at the function's exit label: the last label of the function
+            lastlab = max(q for q, x in enumerate(body) if x[0] == 'LABEL')
+            code = [x for x in body[:lastlab] if x[0] != '']
+        except (ValueError, StopIteration):
+            pass
+        import re
+        gl = dict((nm, int(a)) for nm, a in re.findall(r'STAM (_lab\d+) \((\d+)\)', text))
+        glob = re.findall(r'STAM _lab\d+ \((\d+)\)', text)
+        pool = re.findall(r'^(?:0x)?[0-9a-fA-F]+\s+(_const\d+)\s', text, re.M)
+        poolmap = []
+        lines_ = text.split('\n')
+        for q, ln in enumerate(lines_):
+            m = re.match(r'^(?:0x)?([0-9a-fA-F]+)\s+_const\d+\s', ln)
+            if m and q + 1 < len(lines_):
+                m2 = re.match(r'^(?:0x)?([0-9a-fA-F]+)\s+DATA\s+(-?\d+)', lines_[q + 1])
+                if m2:
+                    v = int(m2.group(2))
+                    if v >= (1 << 31):
+                        v -= 1 << 32
+                    poolmap.append('#%d=%d' % (v, int(m2.group(1), 16) // 4))
+        try:
+            km = ins.index(('PROC', 'main'))
+            glob = [str(x[1]) for x in ins[km:] if x[0] == 'STAM' and x[1] != 1][:2]
+        except ValueError:
+            glob = []
+        if code is None or size is None or len(glob) < 2:
+            ck.broken.append('fragment tie: cannot locate the expression code in the listing of %r' % src.decode('latin-1'))
+            break
+        line = 'f size=%d g0=%s g1=%s %s\n' % (size, glob[0], glob[1], ' '.join(poolmap))
+        rc, out, err = xcommon._run([tools.hv, 'xcg', 'f.sx'], d, line.encode(), 60)
+        mo = out.decode().strip()
+        if rc != 0 or not mo or mo == 'front-error':
+            ck.broken.append('extracted cg failed rc=%d %s %s on %r' % (rc, mo, err[-200:], src.decode('latin-1')))
+            break
         if mo == 'none':
             outside += 1
             continue
-        want = []
-        for tok in mo.split('; '):
-            w = tok.split()
-            want.append((w[0], int(w[1]) if len(w) > 1 else None))
-        if code is None or code != want:
-            ck.broken.append('model XCodegenExpr.cg differs from the real xcmp on %r: model %r, xcmp %r' % (src.decode('latin-1'), want, code))
+        want = canon_labels(model_code(mo))
+        got = canon_labels(code)
+        if want != got:
+            ck.broken.append('model XCodegenExpr.cg differs from the real xcmp on %r: model %r, xcmp %r' % (src.decode('latin-1'), want, got))
             if len(ck.broken) > 3:
                 break
         else:
             agree += 1
             sample = {'x_source': src.decode('latin-1'), 'model_and_xcmp': mo}
-    ck.cov['fragment_model_tie'] = {'expressions': len(exprs), 'in_fragment_identical_code': agree, 'outside_fragment': outside}
+    ck.cov['fragment_model_tie'] = {'expressions': n, 'in_fragment_identical_code': agree, 'outside_fragment': outside}
     if sample:
         ck.sample(sample)
     shutil.rmtree(d, ignore_errors=True)
-
 
 
 def replay(ck, tools, scr, path, monitor):
